@@ -11,11 +11,13 @@ history."
 Model: the abstract engine (LLBuild/Model/Engine.lean); the real engine's traces are replayed
 through `step`, which accepts `createTask` / `determinedRuleNeedsToRun` only under these conditions.
 What is proved here is that acceptance by the model implies the clauses, for every history.
-Not proved (decided by the oracle on the real engine's traces only): the null-build corollary
-("a build with no external change executes nothing") as a statement over whole builds.
+The null-build corollary ("a build with no reason to run anything executes nothing") is
+`C02_null_build_runs_nothing`; it rests on the `demanded` guard of the `scanning` event (the engine
+only scans what somebody asked for), which real traces are checked against like every other guard.
 -/
 import LLBuild.Lemmas.Engine.Run
 import LLBuild.Lemmas.Engine.Fingerprint
+import LLBuild.Lemmas.Engine.NullBuild
 
 set_option linter.unusedVariables false
 
@@ -283,5 +285,66 @@ theorem C02_computedAt_changes_only_on_change {P : Program} {s s' : St} {e : Eve
     | (split at h
        · cases h; exact absurd rfl hc
        · cases h)
+
+/-- **Null builds run nothing.**  Let `S` be a set of keys containing the requested key `r` such that
+every key in `S` has a completed execution on record, carrying the rule's current signature and a
+value the rule still accepts, whose recorded (non-single-use) dependencies lie in `S` again and, unless
+order-only, were not computed after the rule was last brought up to date (`Settled`).  Then in EVERY
+accepted continuation of `buildStart r` up to the end of that build — any schedule, any cancellation,
+any number of events — no task is created, and no stored value changes.  (The engine only scans keys
+that were asked for — guard `demanded` of `scanning` —, so nothing outside `S` matters.) -/
+theorem C02_null_build_runs_nothing {P : Program} {s s' : St} {S : Key → Prop} {r : Key} {evs : List Event}
+    (hS : Settled P s S) (hr : S r)
+    (hrun : run P s (.buildStart r :: evs) = some s')
+    (hone : ∀ e ∈ evs, e.endsBuild = false) :
+    (∀ k, Event.create k ∉ evs) ∧ s'.ran = [] ∧ (∀ k, (s'.mem.res k).value = (s.mem.res k).value) := by
+  simp only [run] at hrun
+  cases hs : step P s (.buildStart r) with
+  | none => rw [hs] at hrun; simp at hrun
+  | some s1 =>
+    rw [hs] at hrun
+    simp only [Option.bind] at hrun
+    have h := NB.along evs s1 s' (NB.start hS hr hs) hrun hone
+    exact ⟨h.2, h.1.ran, h.1.vals⟩
+
+namespace NullBuildExample
+
+/-- rule 1 reads external state, rule 2 adds one to the value of rule 1 -/
+def P : Program where
+  sig := fun _ _ => 7
+  valid := fun env k v => if k = 1 then v == env 1 else true
+  next := fun k _ => if k = 2 then [⟨1, 0, 0⟩] else []
+  disc := fun _ _ => []
+  out := fun k env recv => if k = 1 then env 1 else (recv.map (·.2)).sum + 1
+  force := fun _ => false
+  self := fun k => k == 1
+
+/-- the state a finished build of key 2 leaves (external state 1 ↦ 3) -/
+def s0 : St where
+  env := fun k => if k = 1 then 3 else 0
+  epoch := 1
+  dbIter := 1
+  mem := { res := fun k => if k = 1 then { value := 3, sig := 7, computedAt := 1, builtAt := 1 }
+                           else if k = 2 then { value := 4, sig := 7, computedAt := 1, builtAt := 1, deps := [⟨1, false, false⟩] }
+                           else {} }
+
+def S (k : Key) : Prop := k = 1 ∨ k = 2
+
+theorem settled : Settled P s0 S := by
+  refine ⟨?_, ?_, ?_, ?_, ?_, ?_⟩ <;> intro k hk <;> rcases hk with rfl | rfl <;> simp [s0, P, S]
+
+/-- a complete null build of key 2 (both rules scanned and found up to date, value 4 returned) -/
+def trace : List Event :=
+  [.queueCreated, .dbIter 2, .lookup 2, .scanning 2, .valid 2 4 true, .lookup 1, .scanning 1, .valid 1 3 true,
+   .upToDate 1, .upToDate 2, .ret 4, .dbEnd]
+
+/-- non-vacuity: the hypotheses of `C02_null_build_runs_nothing` hold of a concrete accepted trace -/
+example : ∃ s', run P s0 (.buildStart 2 :: trace) = some s' ∧ (∀ e ∈ trace, e.endsBuild = false) ∧
+    Settled P s0 S ∧ S 2 := by
+  have h : (run P s0 (.buildStart 2 :: trace)).isSome = true := by decide
+  obtain ⟨s', hs'⟩ := Option.isSome_iff_exists.1 h
+  exact ⟨s', hs', by decide, settled, Or.inr rfl⟩
+
+end NullBuildExample
 
 end LLBuild.Engine
